@@ -80,7 +80,8 @@ decreasing_by omega
 def invMod? (a p : Nat) : Option Nat :=
   if a % p = 0 then none else some (powMod a (p - 2) p)
 
-/-- ≙ finfields.py:407-412 `a ** n` for any integer n (`pow(a, n, p)`: negative n via the inverse) -/
+/-- ≙ finfields.py:407-412 `a ** n` for any integer n (`pow(a, n, p)`: negative n via the inverse);
+    `none` ≙ ValueError ("base is not invertible for the given modulus") -/
 def fpow? (a : Nat) (n : Int) (p : Nat) : Option Nat :=
   if n ≥ 0 then some (powMod a n.toNat p)
   else (invMod? a p).map (fun ai => powMod ai (-n).toNat p)
@@ -111,9 +112,14 @@ def qrEncode? (p gap m : Nat) : Option (Nat × Nat) :=
       if legendre a p = 1 then some (a % p, i % p) else none
     else none
 
-/-- ≙ fingroups.py:327-331 QuadraticResidue.decode: `int((M.value - Z.value) / gap)` -/
-def qrDecode? (p gap M Z : Nat) : Option Nat :=
-  (invMod? gap p).map fun gi => ((M % p + p - Z % p) % p) * gi % p
+/-- ≙ finfields.py `PrimeFieldElement.__int__`: signed (symmetric) or unsigned representative -/
+def fieldInt (p : Nat) (signed : Bool) (v : Nat) : Int :=
+  if signed && v > p / 2 then (v : Int) - p else v
+
+/-- ≙ fingroups.py:327-331 QuadraticResidue.decode: `int((M.value - Z.value) / gap)`; `signed` is
+    the `is_signed` attribute of the field type (True for a fresh `GF(p)`) -/
+def qrDecode? (p gap M Z : Nat) (signed : Bool := true) : Option Int :=
+  (invMod? gap p).map fun gi => fieldInt p signed (((M % p + p - Z % p) % p) * gi % p)
 
 /-- ≙ fingroups.py:456-460 SchnorrGroupElement.encode: `g.value**m` -/
 def sgEncode? (p g : Nat) (m : Int) : Option Nat := fpow? g m p
